@@ -14,5 +14,8 @@ CLAIMS = {
 CLAIMS["C04"] = dict(
     text="Unbounded proof that a plain junction (outside and inside a duration group, per elapsed-time row) assigns inflow * p_i / sum(p) to each outflow, passes on exactly what it receives whenever sum(p) > 0 and never produces a negative or undefined flow under the property's domain restriction; residual junctions, the initial flush and the topological order are added as their contracts are built.",
     note=_REAL)
+CLAIMS["C05"] = dict(
+    text="Unbounded proof (any number of rows, links and any real values) of the keyring mechanics of timed compartments: row 0 is emptied exactly each step, duration-preserving links never leave from row 0, every other row moves down by exactly one row per step keeping its content minus recorded outflows plus duration-preserving inflows, and all other inflows enter the last row. The row count (FPSTD) clause is added with TimedCompartment.preallocate.",
+    note=_REAL + "; duration-preserving inflows are assumed to come from a group with the same number of rows (the unequal-rows branches of TimedCompartment.update are not under contract)")
 NOT_APPLICABLE = {}
 NOTES = "Checks exit 0 (all obligations discharged), 1 (a registered obligation refuted: VIOLATION line, replay on real objects), 2 (undecided: unknown/unsupported, never reported as a violation), 3 (checker error: vacuity, zero obligations, internal error)."
